@@ -251,7 +251,9 @@ def obs_openql(h, ex=None):
             realql._restore(saved)
         return realql.describe(p)
     p = L.to_openql(h.obj)
-    return {"prog": p.name, "items": p.items}
+    # the same circuit always yields the same program and kernel names: export once more and compare
+    p2 = L.to_openql(h.obj)
+    return {"prog": p.name, "items": p.items, "again_same": [p2.name == p.name, p2.items == p.items]}
 
 
 def obs_repr(h, ex=None):
